@@ -2,6 +2,7 @@ pub mod c01;
 pub mod c02;
 pub mod c03;
 pub mod c04;
+pub mod c05;
 pub mod c14;
 
 use crate::fw::Outcome;
